@@ -70,6 +70,9 @@ def unit_fractions(twin=False):
         ok = len(w) == 1 and w[0][1][0] is ph and w[0][2].op == "app" and w[0][2].args[0] == "call:Get_log10_fraction_x" and w[0][2].args[1] is comp
         r.add("fraction_loop.phase_record_gets_the_component's_log_fraction[path %d]" % k, DISCHARGED if ok else FAILED, "term-inspection", 0, repr(w)[:160])
     r.add("reach.paths", DISCHARGED if n >= 2 and k >= 2 else UNDECIDED, "symex", 0, "sum paths %d fraction paths %d" % (n, k), kind="vacuity")
+    from props import common as CM
+    fn0 = A.find_function(MODEL, "Phreeqc::calc_ss_fractions")
+    CM.check_accumulator_init(r, fn0, MODEL, CM.loop_node(fn0, 1), "n_tot", "sum_loop")
     # lemma: the fractions sum to one:  sum_k (x_k / n) = (sum_k x_k) / n = n / n = 1  (n = sum_k x_k by the first loop, n > 0)
     x1, x2, x3 = tm.sym("x1", "R"), tm.sym("x2", "R"), tm.sym("x3", "R")
     nn = x1 + x2 + x3
